@@ -12,6 +12,7 @@ Oracle: envelope invariants checked against the harness's own knowledge of which
 from __future__ import annotations
 
 import hashlib
+import json
 import os
 import re
 
@@ -167,6 +168,11 @@ def parse_fails(kind: str) -> bool:
     return kind in ("unparseable", "untokenisable")
 
 
+CLI_VALID_META = '===D===\nMETA:\n  TYPE::T\n  VERSION::"1.0.0"\n  STATUS::ACTIVE\nK::v\n===END===\n'
+CLI_DELTAS = [{"META.TYPE": {"$op": "DELETE"}}, {"META.VERSION": 5}, {"META.STATUS": "BOGUS"}, {"META.VERSION": {"$op": "DELETE"}}, {"K": "x"},
+              {"META": {"STATUS": "nope"}}, {"META.TYPE": None}, {"META.STATUS": {"$op": "DELETE"}, "K": [1, 2]}, {"NEW": "y"}]
+
+
 def check_envelope(view, r, case, fails, latest):
     if not isinstance(r, dict):
         fails.append(("C10:unlisted:not-a-dict", f"{view}: response is {type(r).__name__}"))
@@ -288,6 +294,26 @@ def run_case(case, root: str):
             if exc is not None:
                 fails.append((f"C10:unlisted:{tool}:raised", f"{tool} raised {exc!r} | case={case}"))
             m = re.findall(r"^validation_status: (\S+)$", out, re.M)
+            if tool == "cli_write" and code == 0 and "VALIDATED" in m and os.path.exists(p):
+                # what `octave write` stored as VALIDATED is VALIDATED when checked again
+                r2 = tools.validate(file_path=p, schema=case["schema"])
+                if r2.get("validation_status") != "VALIDATED":
+                    fails.append(("C10:unlisted:cli_write:validated-text-not-validated-again", f"file written as VALIDATED is {r2.get('validation_status')} when checked again: {r2.get('validation_errors')} | case={case}"))
+            if tool == "cli_write" and case["schema"] == "META":
+                # a delta on a file that is valid under META: the status printed by `octave write --changes --schema` describes the
+                # file as written (the delta may remove a required field or set a value outside the schema)
+                with open(p, "w", encoding="utf-8") as fh:
+                    fh.write(CLI_VALID_META)
+                delta = CLI_DELTAS[case.get("delta", 0) % len(CLI_DELTAS)]
+                code2, out2, err2, exc2 = tools.cli(["write", p, "--changes", json.dumps(delta), "--schema", "META"])
+                m2 = re.findall(r"^validation_status: (\S+)$", out2, re.M)
+                if exc2 is not None:
+                    fails.append(("C10:unlisted:cli_write_changes:raised", f"cli write --changes raised {exc2!r} | delta={delta}"))
+                elif code2 == 0 and "VALIDATED" in m2:
+                    r2 = tools.validate(file_path=p, schema="META")
+                    if r2.get("validation_status") != "VALIDATED":
+                        fails.append(("C10:unlisted:cli_write_changes:validated-text-not-validated-again",
+                                      f"`octave write --changes {json.dumps(delta)} --schema META` prints VALIDATED and exits 0; the file it wrote is {r2.get('validation_status')}: {r2.get('validation_errors')}"))
             if code == 0 and not m:
                 fails.append((f"C10:unlisted:{tool}:status-missing", f"{tool} exit 0 without a validation_status line: {out[-300:]!r} | case={case}"))
             for s in m:
@@ -316,6 +342,7 @@ def strategy():
 
     b = hs.booleans()
     return hs.fixed_dictionaries({
+        "delta": hs.integers(0, 8),
         "tool": hs.sampled_from(["validate", "validate", "validate", "write", "write", "write", "eject", "compile", "cli_validate", "cli_write"]),
         "content_kind": hs.sampled_from(CONTENT_KINDS + ["unknown_meta_field", "missing_version", "bad_status", "case_status", "valid"] * 2),
         "schema": hs.one_of(hs.sampled_from(sorted(KNOWN_OK)), hs.sampled_from(["META", "GEN_A", "GEN_W"]), hs.sampled_from(SCHEMAS)),
